@@ -1503,3 +1503,30 @@ def run_put_vc(S, prefix='put/run'):
 
     S.install(contracts)
     S.run_paths(prefix, body, active=[c.key for c in contracts])
+
+
+
+def leaf_vcs(S):
+    """verify the body of every contract the put VCs rely on"""
+    S.install([VolumeOf(), HomeTrashDirPath(), MkdirP(), ForFile(), PutMove(),
+               PutRemoveFile()],
+              loops={trashdirs.VOLUME_OF_LOOP: trashdirs.volume_of_loop_annot()})
+    act = [VolumeOf().key, HomeTrashDirPath().key]
+    S.verify(ShouldSkip())
+    S.verify(AtomicWrite())
+    S.verify(MkdirP())
+    S.verify(PutMove())
+    S.verify(PutRemoveFile())
+    S.verify(ForFile())
+    S.lemma('put/lemma/rest-of-a-clean-path', lemma_rest_of_clean_path)
+    S.lemma('put/lemma/joining-keeps-dotdot-out', lemma_join_keeps_dotdot_out)
+    S.verify(CreateTrashinfoBasename())
+    S.verify(purge.PathOfBackupCopy())
+    S.verify(trashdirs.VolumeOf())
+    S.verify(trashdirs.HomeTrashDirPath())
+    S.verify(SecurityCheckC())
+    S.verify(Finder(), active=act)
+    S.verify(MakeCandidateDirs(), active=[MkdirP().key])
+    S.verify(MakeTrashinfoData(), active=[ForFile().key] + act)
+    S.verify(TryTrash(), active=[PutMove().key, PutRemoveFile().key])
+    return act
